@@ -183,18 +183,18 @@ package nilness
 // a conversion keeps nil-ness when its operand is pointer-like; converting a string yields a
 // non-nil slice (language specification); any other operand (uintptr to unsafe.Pointer) can
 // yield nil, so nothing but "may be nil" may be recorded for the result
-//@   at call (*state).set#1 assert [conv_ptr]   typeutil.IsPointerLike(v.X.Type())
-//@   at call (*state).setOuter#1 assert [conv_str] ok && (b.Info() & types.IsString) != 0
-//@   at call (*state).set#2 assert [conv_other] gam(arg2.Outer, 0) && gam(arg2.Outer, 1)
-//@   at call (*state).setOuter#3 assert [s2ap]       allNonZero
-//@   at call (*state).setOuter#4 assert [s2a]        allNonZero
-//@   at call (*state).setOuter#22 assert [typeassert] !v.CommaOk
-//@   at call (*state).setOuter#25 assert [tsdefault]  hasNil
-//@   at call (*state).setOuter#30 assert [select]     v.Blocking && len(v.States) == 1
+//@   at call (*state).set#1 on "s.set(v, s.get(v.X))" assert [conv_ptr]   typeutil.IsPointerLike(v.X.Type())
+//@   at call (*state).setOuter#1 on "s.setOuter(v, NeverNil)" assert [conv_str] ok && (b.Info() & types.IsString) != 0
+//@   at call (*state).set#1 on "s.set(v, ValueNilness{MaybeNil, MaybeNil})" assert [conv_other] gam(arg2.Outer, 0) && gam(arg2.Outer, 1)
+//@   at call (*state).setOuter#1 on "s.setOuter(v.X, NeverNil)" assert [s2ap]       allNonZero
+//@   at call (*state).setOuter#2 on "s.setOuter(v.X, NeverNil)" assert [s2a]        allNonZero
+//@   at call (*state).setOuter#7 on "s.setOuter(v.X, NeverNil)" assert [typeassert] !v.CommaOk
+//@   at call (*state).setOuter#1 on "s.setOuter(tuple.Tag, NeverNil)" assert [tsdefault]  hasNil
+//@   at call (*state).setOuter on "s.setOuter(v.States[0].Chan, NeverNil)" assert [select]     v.Blocking && len(v.States) == 1
 // Extract of a type switch: in the default branch, and in a clause listing several types, the
 // extracted value IS the interface operand (same dynamic type and value). In the default branch
 // what is recorded for it (arg2 of the call of set) must cover the operand's nilness, outer and
 // inner; in a matching clause only an extracted value of concrete type may take the operand's
 // inner nilness as its outer nilness.
-//@   at call (*state).set#18 assert [tsdefault_same] arg1 == v && (forall c int :: (c == 0 || c == 1) && gam(val(s.m, tuple.Tag).Outer, c) ==> gam(arg2.Outer, c)) && (forall c int :: (c == 0 || c == 1) && gam(val(s.m, tuple.Tag).Inner, c) ==> gam(arg2.Inner, c))
-//@   at call (*state).setOuter#29 assert [tscase_same] !types.IsInterface(v.Type()) || typeparams.IsTypeParam(v.Type())
+//@   at call (*state).set on "s.set(v, s.get(tuple.Tag))" assert [tsdefault_same] arg1 == v && (forall c int :: (c == 0 || c == 1) && gam(val(s.m, tuple.Tag).Outer, c) ==> gam(arg2.Outer, c)) && (forall c int :: (c == 0 || c == 1) && gam(val(s.m, tuple.Tag).Inner, c) ==> gam(arg2.Inner, c))
+//@   at call (*state).setOuter on "s.setOuter(v, s.get(tuple.Tag).Inner)" assert [tscase_same] !types.IsInterface(v.Type()) || typeparams.IsTypeParam(v.Type())
